@@ -181,9 +181,12 @@ def plan(tier, seed):
                  ('mix-rel', 'release', 'cache_trace', ['gen', str(seed + 1), '500', '60', 'mix']),
                  ('big-rel', 'release', 'cache_trace', ['gen', str(seed + 2), '16', '500', 'big']),
                  ('forget-rel', 'release', 'cache_trace', ['gen', str(seed + 3), '150', '40', 'forget']),
+                 ('exh2-dbg', 'debug', 'cache_trace', ['exhaust', '2', '0', '1']),
                  ('panic-dbg', 'debug', 'panic_trace', [str(seed), '10', '6', '16']),
                  ('panic-rel', 'release', 'panic_trace', [str(seed + 1), '14', '9', '16'])]
     else:
+        jobs += [('exh3-h0-rel', 'release', 'cache_trace', ['exhaust', '3', '0', '0']), ('exh3-h1-rel', 'release', 'cache_trace', ['exhaust', '3', '0', '1']),
+                 ('exh4-h0-rel', 'release', 'cache_trace', ['exhaust', '4', '1', '0']), ('exh4-h1-dbg', 'debug', 'cache_trace', ['exhaust', '4', '1', '1'])]
         for i in range(10):
             jobs.append(('mix-rel-%d' % i, 'release', 'cache_trace', ['gen', str(seed * 100 + i), '4000', '80', 'mix']))
         for i in range(4):
@@ -502,7 +505,8 @@ def main():
             components_of_this_property={k: [dict(ops=(sorted(o) if o else 'all'), jobs=(j or 'all')) for o, j in v] for k, v in comp_table(cfg).items()},
             operation_histogram=ophist, input_distribution=dist,
             jobs=sorted(corr['jobs'].keys()), correspondence_cached=corr.get('cached', False),
-            samples=samples, exhaustive=False),
+            samples=samples, exhaustive=False,
+            exhaustive_subspace=('every sequence of 2 operations over the 39-operation small alphabet (3 keys x 3 value sizes, tight limit, all-colliding hasher) from the empty cache' if tier == 'quick' else 'every sequence of 3 operations over the 39-operation small alphabet and every sequence of 4 over the 14-operation reduced alphabet, identity and all-colliding hashers, from the empty cache') + ' (jobs exh*: used as model validation and counter-example search, never as the proof)'),
         assumptions=cfg.get('assumptions', []),
         wall_s=round(time.time() - t0, 2), violations=len(violations))
     os.makedirs(os.path.join(ROOT, 'evidence'), exist_ok=True)
